@@ -79,9 +79,10 @@ func Err(err error) J {
 }
 
 type Writer struct {
-	f *os.File
-	w *bufio.Writer
-	n int
+	f     *os.File
+	w     *bufio.Writer
+	n     int
+	lines [][]byte // in-memory mode (f == nil): records of ONE vector, flushed by the exec loop when the call returned
 }
 
 func NewWriter(path string) *Writer {
@@ -97,6 +98,16 @@ func (w *Writer) Put(rec J) {
 	if err != nil {
 		die("marshal: %v", err)
 	}
+	if w.f == nil {
+		w.lines = append(w.lines, b)
+		return
+	}
+	w.w.Write(b)
+	w.w.WriteByte('\n')
+	w.n++
+}
+
+func (w *Writer) putRaw(b []byte) {
 	w.w.Write(b)
 	w.w.WriteByte('\n')
 	w.n++
